@@ -22,5 +22,6 @@ INVARIANT OracleTotal
 INVARIANT FeatureEqualsLabel
 INVARIANT EveryReadAlike
 INVARIANT SpellingIrrelevant
+INVARIANT LevelOrderIsPresentation
 INVARIANT Emit
 CHECK_DEADLOCK FALSE
